@@ -145,7 +145,7 @@ def _clock_op(rng, kind, t0):
 
 def gen_cases(seed, tier):
     rng = np.random.default_rng([seed, 15])
-    n = 2304 if tier == 'quick' else 138240
+    n = 2304 if tier == 'quick' else 414720
     cases = []
     for i in range(n):
         dcls = DELAY_CLASSES[i % 9]
